@@ -60,7 +60,13 @@ CLAIMS = {
         "zeros, the TEXT `mov <reg>, <number>` run symbolically through the whole per-line pipeline of the model (filter, tokenizer, lookups, "
         "encode_imm, encode_operands, assemble_asm: Lemmas.MovText.mov_line, Lemmas.MovImm.mov_bytes) is one of three encodings which, read as the "
         "CPU reads them (Spec.MovImm.movResult_movBytes), leave exactly v (resp. 2^64-v) in that register; tied to the C code by seeded random and "
-        "boundary v x registers x spellings x modes with the three encodings recomputed in the check.",
+        "boundary v x registers x spellings x modes with the three encodings recomputed in the check. In the same way, kernel-checked: C03.alu_r64_hex / "
+        "alu_r64_neg_hex / alu_r64_dec / alu_r64_neg_dec - for the eight operations add/or/adc/sbb/and/sub/xor/cmp, the 16 64-bit registers, EVERY v "
+        "that sign-extends from 32 bits (the values representable at the destination), every option byte and the four spellings, the TEXT "
+        "`<op> <reg>, <number>` comes out of the whole per-line pipeline (Lemmas.AluText.alu_line, Lemmas.Alu.alu_bytes over abstract table rows, "
+        "aluKeys_classified on the regenerated table) as REX.W 83 /n ib exactly when v sign-extends from 8 bits, else REX.W 81 /n id (8n+5 id for "
+        "rax), which Spec.AluImm.aluRead (own reader from the SDM) maps back to (operation, register, v); tied to the C code by seeded random and "
+        "threshold values x registers x operations x spellings with the encodings recomputed in the check.",
    note="Sweep by evaluation (native_decide axiom). 'Representable' is read as encodable: for 64-bit non-mov destinations values outside the sign-"
         "extended imm32 range are not in the family. mov r64, imm <= 0xffffffff may be emitted to the 32-bit register (C11 says in which mode).",
    technique="Lean 4 reference decoder; inductive numeral lemmas for all values; finite-domain theorem (native_decide); differential run with decoding oracle and executed code",
@@ -84,7 +90,7 @@ CLAIMS = {
         "of the regenerated table - Lemmas.Branch.relKeys_classified puts each into the jmp/jcc, call/xbegin or jrcxz shape - EVERY d in "
         "-2^31..2^31-1, with and without short/long, every option byte: rel8, rel32 or rejection exactly as stated, displacement field = d's two's "
         "complement), and the same at the TEXT level (C05.rel_branch_text_dec / _neg_dec / _hex / _neg_hex: each of the 20 relative-branch mnemonics, "
-        "no keyword / short / long, four spellings with leading zeros, through filter, tokenizer and lookups - Lemmas.BranchText.branch_line). Register, memory and far-memory targets are instances of the C01/C02 families (call, jmp, callf, jmpf).",
+        "no keyword / short / long, four spellings with leading zeros, through filter, tokenizer and lookups - Lemmas.BranchText.branch_line). Register, memory and far-memory targets: the indirect forms of call, jmp, call far, jmp far over all 16 registers and the C02 address shapes (key bases and indices, stack-pointer swap shapes, every base-less scaled index) are part of the C05 family (sweep theorem on the model, the same lines on the C code with the decoding oracle).",
    note="Sweep by evaluation (native_decide axiom). 'short' on call/xbegin (no rel8 form exists) is not judged.",
    technique="Lean 4 reference decoder; finite-domain theorem (native_decide) + two's-complement lemmas for all displacements; differential run with decoding oracle",
    design="8/C05"),
@@ -94,7 +100,7 @@ CLAIMS = {
         "failed_call_keeps_code (whatever makes a call fail, the offset and every byte before it are unchanged, bookkeeping intact, nothing written "
         "outside), readFile_fails / file_failure_reports / read_error_fails, bin_file_success_iff / bin_file_complete (success iff fopen ok, every "
         "byte written, fclose ok - and then the file is code[0,offset)). Tie: --wrap fault-injection harness over the real library: EVERY single "
-        "failure of every malloc/mmap/mremap/munmap/open/fstat/read/close/fopen/fwrite/fclose call the library objects make in six scenarios, one "
+        "failure of every malloc/mmap/mremap/munmap/open/fstat/read/close/fopen/fwrite/fclose call the library objects make in six scenarios (plus fitting/counting growth scenarios and growthfar: ONE call that has to grow the buffer several times, each of its mremap steps refused in turn), one "
         "process per schedule (a crash is an outcome), observations checked against the property and against the model's prediction; T6: nm "
         "inventory of the libc symbols the library objects reference (a new fallible call breaks the obligation).",
    note="PARTIAL: the kernel's behaviour on a refused call is assumed; combinations of several faults are covered by the theorems, not injected; "
@@ -121,7 +127,7 @@ CLAIMS = {
         "variant = the string entry points on that text: same return value, instance, buffer, count) for EVERY content - every size, empty, any "
         "multiple of the page size (the file is read, not mapped: no page arithmetic) - missing_file_fails, C17.bin_file_complete. Tie: files of "
         "every size 0..64 and within 40 bytes of 1, 2, 3 pages, with/without final newline, valid, rejected and generated programs, on a twin "
-        "instance with the string entry point; missing file, directory, missing directory; asm_create_bin_file at every offset; all on the model too.",
+        "instance with the string entry point; missing file, directory, missing directory; a history of 70 (thorough 400) failing file calls under a descriptor budget of 40 followed by a valid file (a failing call must not keep the file open); asm_create_bin_file at every offset; all on the model too.",
    note="The file system is assumed to return what was written.",
    technique="Lean 4 model of the read loop with OS answers as parameters, proof by induction over reads; twin-instance differential harness over file sizes",
    design="8/C19"),
@@ -131,7 +137,7 @@ CLAIMS = {
         "the documented calls: -n/-t/-s as asm_set_all in command-line order, then the long flags as asm_mov_imm, asm_sib, "
         "asm_sib_index_base_swap, asm_sib_no_base - through C12's refinement, AL.Spec.apply folded over them), getlines_join (the stdin pieces "
         "concatenate to the input), file_mode_is_library. Tie: the asmline executable on programs x 24 mode-flag sequences x 15 output-flag sets x "
-        "{stdin, FILE}: exit status, -P/-o file bytes, -b count vs the model; -p hex parsed back and -r value checked directly.",
+        "{stdin, FILE}: exit status, -P/-o file bytes, -b count vs the model; -p hex parsed back and -r value checked directly; programs with empty lines behind boundary-crossing instructions; the -b count from stdin equals the one from FILE.",
    note="PARTIAL: getopt_long is assumed; what -p prints and the stdin/FILE equality on whole programs are checked on the executable (C06 "
         "split_calls and C14 additivity are the two-call lemmas behind it), not proved end to end.",
    technique="Lean 4 model of the command-line tool over the library model + refinement to the documented option table; differential run of the executable",
@@ -193,7 +199,7 @@ CLAIMS = {
         "wherever they are inserted, hence LF = CRLF. Number-base independence (decimal/hex/leading zeros) is exercised by the oracle "
         "and proved where immediates are interpreted (C03.written_number_value, written_number_value_padded). Tie + oracle: every accepted corpus line x 8 "
         "(thorough 64) seeded rewritings vs its canonical form on the implementation, programs with inserted skipped lines and CR/LF/CRLF in a roomy buffer "
-        "and in a caller buffer the plain program only just fits.",
+        "and in a caller buffer the plain program only just fits (skipped lines include label names of 14 to 97 characters, mangled names, a blank before the colon).",
    note="The filter lemmas are about AL.Impl.Filter (transliteration of filter_assembly_str_fsa, tied by T2). The numeral part is "
         "C03.written_number_value / written_number_value_padded (immediates) and the oracle (displacements).",
    technique="Lean 4 proofs by induction over the input text (filter automaton) + metamorphic oracle and differential correspondence",
@@ -277,7 +283,7 @@ CLAIMS = {
         "sequence of the five setters with ANY argument value the stored option byte is exactly the encoding of what the documented table "
         "(AL.Spec.Api, written from the man page) yields from SMART/NASM/NASM; a setter on one instance changes no other instance. "
         "Tie: all setter sequences up to length 2 (quick) / 3 (thorough) x values 0..3 plus random longer ones on one or two live "
-        "instances, observed through four probe lines that are checked to discriminate all 12 states on the implementation.",
+        "instances, observed through four probe lines that are checked to discriminate all 12 states on the implementation; lines sensitive to several dimensions at once (padded/short/decimal immediates next to base-less or stack-pointer-index operands) under all 12 states against the whole per-line model, with the implementation-only oracle that a line without mov r64, imm assembles the same under the three mov-immediate settings.",
    note="The option byte is observed only through assembled probe lines; the probes' discrimination is re-checked on every run.",
    technique="Lean 4 refinement proof (12 states x 20 transitions by kernel evaluation, induction over call lists) + differential correspondence",
    design="8/C12"),
